@@ -25,6 +25,12 @@ W: generator programs (conservative features of C03) whose shadow assertions are
    Builtin coverage (both tiers, full list): for every documented pure builtin a function whose BODY calls it with a
    false assertion in its block, a block that ITSELF calls it next to a false assertion, the all-true variants (must
    build) and a function calling it WITHOUT a block (must be reported); expectations from a hand-written table.
+   Name dimension of the reporting clause (both tiers, full list): un-shadowed functions whose names are prefixes /
+   extensions / case variants of the names the type checker treats specially (main, extern-looking names, builtin
+   names and the prefixes list_ List_ map_ ...), very long names, and pairs of names that differ only after
+   4/8/16/31/32/63/64 characters (one with, one without a block); alone and among shadowed functions, first / last in
+   the file, in the main file and in an imported module.  Oracle: every un-shadowed one is named in a "missing a
+   shadow test" report; functions WITH a block, extern declarations and `main` are not.
 """
 import copy
 import os
@@ -508,6 +514,53 @@ def builtin_programs(entry):
 
 
 # =====================================================================================================
+# name dimension of "a function without a shadow block is always reported"
+# =====================================================================================================
+SPECIAL_NAMES = [
+    # the exempt entry point and its neighbours
+    "main_x", "mainx", "xmain", "Main", "MAIN", "_main", "m", "ma", "mai", "main_", "main1", "mainmain", "main_menu", "maintain",
+    "mainframe_id", "maim", "nain", "mai_n", "xmainx",
+    # extern-looking / keyword-looking names
+    "extern_fn", "externx", "ext", "exter", "xextern", "c_getpid", "getpidx", "getpi", "ffi_call", "pub_fn", "shadowx", "shadow_",
+    "fnx", "testx", "unsafe_x", "nl_main", "nl_abs", "nl_x",
+    # builtins' prefixes and extensions, and the name prefixes the type checker / evaluator special-case
+    "a", "ab", "abs_", "absx", "sqr", "sqrtx", "mi", "minx", "maxx", "ran", "rangex", "prin", "printx", "printlnx", "asser", "assertx",
+    "at_", "atx", "str_", "str_lengthx", "str_len", "array_", "array_x", "array_lengthx", "cast_", "cast_intx", "is_", "is_digitx",
+    "map_", "map_x", "mapx", "filterx", "reducex", "list_", "list_x", "list_int_x", "List_", "List_abc", "List_int_newx", "result_x", "bstr_x",
+    "HashMap_x", "to_stringx", "int_to_stringx",
+]
+LONG_NAMES = [("long100", "L" + "o" * 98 + "g"), ("long255", "L" + "o" * 253 + "g"), ("long300", "L" + "o" * 298 + "g")]
+PAIR_LENGTHS = [4, 8, 16, 31, 32, 63, 64]
+
+
+def pair_names(n):
+    stem = ("q" + "abcdefghij" * 7)[:n]
+    return stem + "a", stem + "b"          # (the one WITH a block, the one without)
+
+
+def _fn(name, k, shadow, pub=False):
+    out = ["%sfn %s(v: int) -> int {" % ("pub " if pub else "", name), "    return (+ v %d)" % k, "}"]
+    if shadow:
+        out += ["shadow %s {" % name, "    assert (== (%s 1) %d)" % (name, k + 1), "}"]
+    return out
+
+
+def name_program(funcs, where, main_pos="last", with_extern=False):
+    """funcs: [(name, has_shadow)] in file order.  where: 'main-file' | 'imported'.  -> files"""
+    body = []
+    for i, (n, sh_) in enumerate(funcs):
+        body += _fn(n, i + 1, sh_, pub=(where == "imported"))
+    calls = ["    (println (%s %d))" % (n, i) for i, (n, _) in enumerate(funcs)]
+    mainf = ["fn main() -> int {"] + calls + ["    return 0", "}", "shadow main {", "    assert true", "}"]
+    head = ["extern fn getpid() -> int"] if with_extern else []
+    if where == "imported":
+        return {"m1.nano": "\n".join(body) + "\n",
+                "main.nano": "\n".join(['from "m1.nano" import %s' % ", ".join(n for n, _ in funcs)] + head + mainf) + "\n"}
+    text = head + (mainf + body if main_pos == "first" else body + mainf)
+    return {"main.nano": "\n".join(text) + "\n"}
+
+
+# =====================================================================================================
 # observation and oracle
 # =====================================================================================================
 class Case:
@@ -844,6 +897,90 @@ def run(ctx):
                                   {"main.nano": c.files["main.nano"], "nanoc.stdout": r.out, "nanoc.stderr": r.err})
             builtin_table[name] = row
 
+        # ---------------- names of un-shadowed functions -------------------------------------------------------
+        from ..run import run as sh_run
+
+        def name_run(job):
+            label, files, unshadowed, must_not = job
+            d = sc.sub("name-" + label)
+            engines.write_files(d, files)
+            # the report comes from the type checker; the C compiler is not needed for it (NANO_CC=/bin/true)
+            r = sh_run([plain.nanoc, "main.nano", "-o", "main.bin"], cwd=d, env={"NANO_CC": "/bin/true", "TMPDIR": d}, cpu=60)
+            if r.timeout:
+                r = sh_run([plain.nanoc, "main.nano", "-o", "main.bin"], cwd=d, env={"NANO_CC": "/bin/true", "TMPDIR": d}, cpu=60)
+            return job, r
+
+        names_stats = {"names": 0, "names_not_accepted_as_function_names": [], "programs": 0, "unshadowed_functions_checked": 0,
+                       "shadowed_or_exempt_functions_checked": 0, "by_placement": {}}
+
+        def name_judge(job, r, placement):
+            label, files, unshadowed, must_not = job
+            if r.timeout:
+                hist["names:watchdog"] = hist.get("names:watchdog", 0) + 1
+                return False
+            if r.rc != 0:
+                return None          # nanoc does not accept the program (e.g. the name is reserved)
+            rep = set(MISSING_RE.findall(r.errtext()))
+            names_stats["programs"] += 1
+            names_stats["by_placement"][placement] = names_stats["by_placement"].get(placement, 0) + 1
+            ev_files = dict(files)
+            ev_files["nanoc.stderr"] = r.err
+            for nm, tag in unshadowed:
+                names_stats["unshadowed_functions_checked"] += 1
+                if nm not in rep:
+                    ctx.violation("missing-shadow-name|not-reported|%s|%s" % (tag, placement.split("/")[0]),
+                                  "%s: function '%s' has no shadow block and is not named in a \"missing a shadow test\" report (reported: %s)" % (label, nm[:80], sorted(x[:40] for x in rep)), ev_files)
+            for nm, tag in must_not:
+                names_stats["shadowed_or_exempt_functions_checked"] += 1
+                if nm in rep:
+                    ctx.violation("missing-shadow-name|wrongly-reported|%s|%s" % (tag, placement.split("/")[0]),
+                                  "%s: '%s' has a shadow block / is extern / is main, but is reported as missing a shadow test" % (label, nm[:80]), ev_files)
+            return True
+
+        all_names = [(nm_, nm_) for nm_ in SPECIAL_NAMES] + [(nm_, tag) for tag, nm_ in LONG_NAMES]
+        # phase 1: each name alone, first function of the main file
+        jobs1 = [("alone-first-%03d" % i, name_program([(nm_, False)], "main-file", "last"), [(nm_, tag)], [("main", "main")]) for i, (nm_, tag) in enumerate(all_names)]
+        accepted = []
+        for (job, r), (nm_, tag) in zip(pmap(name_run, jobs1), all_names):
+            ok = name_judge(job, r, "main-file/alone/first")
+            if ok is None:
+                names_stats["names_not_accepted_as_function_names"].append(tag)
+            elif ok:
+                accepted.append((nm_, tag))
+        names_stats["names"] = len(accepted)
+        # phase 2: the other placements
+        jobs2 = []
+        for i, (nm_, tag) in enumerate(accepted):
+            jobs2.append(("main-file/alone/last", ("alone-last-%03d" % i, name_program([(nm_, False)], "main-file", "first"), [(nm_, tag)], [("main", "main")])))
+            jobs2.append(("imported/alone/first", ("imp-alone-%03d" % i, name_program([(nm_, False)], "imported"), [(nm_, tag)], [("main", "main")])))
+        for ci in range(0, len(accepted), 5):
+            chunk = accepted[ci:ci + 5]
+            for where in ("main-file", "imported"):
+                for order in ("unshadowed-first", "unshadowed-last"):
+                    funcs = []
+                    for j, (nm_, tag) in enumerate(chunk):
+                        funcs.append((nm_, False))
+                        funcs.append(("good%d" % j, True))
+                    if order == "unshadowed-last":
+                        funcs = funcs[1:] + funcs[:1]
+                    must_not = [("good%d" % j, "shadowed") for j in range(len(chunk))] + [("main", "main"), ("getpid", "extern")]
+                    jobs2.append(("%s/among/%s" % (where, order), ("among-%s-%s-%03d" % (where, order, ci), name_program(funcs, where, "last", with_extern=True),
+                                                                   list(chunk), must_not)))
+        for n_len in PAIR_LENGTHS:
+            wa, wb = pair_names(n_len)
+            for where in ("main-file", "imported"):
+                for k, funcs in enumerate(([(wa, True), (wb, False)], [(wb, False), (wa, True)], [(wa, False), (wb, False)])):
+                    uns = [(nm, "common-prefix-%d" % n_len) for nm, sh_ in funcs if not sh_]
+                    mn = [(nm, "common-prefix-%d" % n_len) for nm, sh_ in funcs if sh_] + [("main", "main")]
+                    jobs2.append(("%s/pair/%s" % (where, ["shadowed-first", "unshadowed-first", "both-unshadowed"][k]),
+                                  ("pair-%s-%d-%d" % (where, n_len, k), name_program(funcs, where), uns, mn)))
+        rejected2 = 0
+        for (placement, job), (_, r) in zip(jobs2, pmap(name_run, [j for _, j in jobs2])):
+            if name_judge(job, r, placement) is None:
+                rejected2 += 1
+                ctx.note("name family: nanoc rejected program %s (exit %s): %s" % (job[0], r.status, r.errtext().strip()[-200:]))
+        names_stats["programs_rejected_in_phase_2"] = rejected2
+
         # ---------------- stale file at the -o path ---------------------------------------------------------
         n_stale = ctx.n(6, 40)
         donors = [c for c, r, exists in results if c.kind == "sweep" and c.prog is not None and not r.timeout and not c.prog.modules
@@ -910,6 +1047,10 @@ def run(ctx):
         n_false = sum(v for k, v in kinds.items() if k != "0")
         if not ctx.violations:
             ctx.require(sum(h["cases"] for h in stale.values()) >= len(STALE_VARIANTS) * 3, "too few stale-output scenarios ran: %s" % stale)
+            ctx.require(names_stats["names"] >= 60 and names_stats["unshadowed_functions_checked"] >= 400 and rejected2 <= 6,
+                        "the name family did not run as planned: %s" % names_stats)
+            for need in ("main_x", "mainx", "Main", "_main", "ma", "mai", "main_menu", "long255", "list_x", "List_abc"):
+                ctx.require(need not in names_stats["names_not_accepted_as_function_names"], "nanoc does not accept '%s' as a function name" % need)
             ctx.require(builtins_judged >= 40, "too few builtins could be exercised (%d): %s" % (builtins_judged, builtin_table))
             for need in ("sqrt", "pow", "floor", "ceil", "round", "sin", "cos", "tan", "atan2", "abs", "min", "max", "str_length", "at", "array_length"):
                 ctx.require(isinstance(builtin_table.get(need), dict), "builtin %s could not be exercised: %s" % (need, builtin_table.get(need)))
@@ -918,7 +1059,8 @@ def run(ctx):
                         "the run did not see enough of both sides of the gate: %s" % hist)
             ctx.require(missing_checked >= n // 20, "too few functions without a shadow block were observed")
         return ctx.finish({
-            "evaluations": len(results) + sum(h["cases"] for h in stale.values()) + 4 * builtins_judged,
+            "evaluations": len(results) + sum(h["cases"] for h in stale.values()) + 4 * builtins_judged + names_stats["programs"],
+            "missing_shadow_name_family": dict(names_stats, pair_lengths=PAIR_LENGTHS, exhaustive=True),
             "builtin_coverage": {"builtins_listed": len(BUILTINS), "builtins_exercised": builtins_judged,
                                  "variants": ["body-false", "shadow-false", "all-true", "no-shadow"], "exhaustive": True, "table": builtin_table},
             "distinct_nontrivial": len(shapes),
